@@ -84,6 +84,8 @@ struct ClientPlan {
     then_subsequent: bool,
     wait_closed_before_rpcs: bool,
     op_timeout: Duration,
+    /// after the requests: `Session::close()`; its outcome is reported as `subsequent`
+    close_session: bool,
 }
 
 struct ClientLog {
@@ -117,6 +119,7 @@ where
         Err(e) => return ClientLog { establish: Err(format!("{e:?}")), results: vec![], subsequent: None },
     };
     let ctx = crate::sched::context_info(&session);
+    let mut session = Some(session);
     if plan.wait_closed_before_rpcs {
         wait_peer_closed(Duration::from_secs(3)).await;
     }
@@ -125,7 +128,7 @@ where
     if plan.pipelined {
         let mut futs = Vec::new();
         for _ in 0..plan.n {
-            match tokio::time::timeout(to, session.rpc::<Get, _>(|b| b.finish())).await {
+            match tokio::time::timeout(to, session.as_mut().unwrap().rpc::<Get, _>(|b| b.finish())).await {
                 Ok(Ok(f)) => futs.push(Some(f)),
                 Ok(Err(e)) => {
                     futs.push(None);
@@ -135,6 +138,15 @@ where
                     futs.push(None);
                     results.push(Res::SendTimeout);
                 }
+            }
+        }
+        // <close-session> goes out behind the requests; the session object is consumed by it
+        let mut closing = None;
+        if plan.close_session {
+            match tokio::time::timeout(to, session.take().unwrap().close()).await {
+                Ok(Ok(f)) => closing = Some(Ok(f)),
+                Ok(Err(e)) => closing = Some(Err(Res::SendErr(format!("{e:?}")))),
+                Err(_) => closing = Some(Err(Res::SendTimeout)),
             }
         }
         tracing::info!(target: "vh::client", "requests-sent");
@@ -148,9 +160,21 @@ where
             tracing::info!(target: "vh::client", "resolved {k}");
             results.push(r);
         }
+        if let Some(c) = closing {
+            let r = match c {
+                Ok(f) => match tokio::time::timeout(to, f).await {
+                    Ok(Ok(())) => Res::Ok("session closed".into()),
+                    Ok(Err(e)) => Res::Err(format!("{e:?}")),
+                    Err(_) => Res::Timeout,
+                },
+                Err(r) => r,
+            };
+            tracing::info!(target: "vh::client", "client-done");
+            return ClientLog { establish: Ok(ctx), results, subsequent: Some(r) };
+        }
     } else {
         for k in 0..plan.n {
-            let r = match tokio::time::timeout(to, session.rpc::<Get, _>(|b| b.finish())).await {
+            let r = match tokio::time::timeout(to, session.as_mut().unwrap().rpc::<Get, _>(|b| b.finish())).await {
                 Ok(Ok(f)) => match tokio::time::timeout(to, f).await {
                     Ok(Ok(v)) => Res::Ok(v.to_string()),
                     Ok(Err(e)) => Res::Err(format!("{e:?}")),
@@ -166,7 +190,7 @@ where
     let mut subsequent = None;
     if plan.then_subsequent {
         wait_peer_closed(Duration::from_secs(3)).await;
-        subsequent = Some(match tokio::time::timeout(to, session.rpc::<Get, _>(|b| b.finish())).await {
+        subsequent = Some(match tokio::time::timeout(to, session.as_mut().unwrap().rpc::<Get, _>(|b| b.finish())).await {
             Ok(Ok(f)) => match tokio::time::timeout(to, f).await {
                 Ok(Ok(v)) => Res::Ok(v.to_string()),
                 Ok(Err(e)) => Res::Err(format!("{e:?}")),
@@ -282,7 +306,7 @@ async fn run_seg(case: &Value) -> Value {
     };
     let ep = lis.endpoint.clone();
     let pw = lis.ssh_password.clone();
-    let plan = ClientPlan { n, pipelined, then_subsequent: false, wait_closed_before_rpcs: false, op_timeout: Duration::from_millis(2500) };
+    let plan = ClientPlan { n, pipelined, then_subsequent: false, wait_closed_before_rpcs: false, op_timeout: Duration::from_millis(2500), close_session: false };
     let cl = tokio::spawn(client(tr, ep, plan, pw));
     let mut conn = match tokio::time::timeout(Duration::from_secs(8), lis.accept()).await {
         Ok(Ok(c)) => c,
@@ -291,7 +315,29 @@ async fn run_seg(case: &Value) -> Value {
     let mut sent = 0usize;
     let mut non_delivery: Vec<Value> = Vec::new();
     let mut not_exercised: Option<String> = None;
+    // "the peer hangs up right after its last message": the replies are held back until all
+    // requests are out, then sent without waiting in between, and the peer stops sending at once
+    let close_after = case["close_after"].as_bool().unwrap_or(false);
     for (j, u) in units.iter().enumerate() {
+        if close_after && sent >= hello.len() {
+            let t0 = Instant::now();
+            while client_events("requests-sent") == 0 && t0.elapsed() < Duration::from_secs(4) {
+                tokio::time::sleep(Duration::from_millis(2)).await;
+            }
+            if client_events("requests-sent") == 0 {
+                not_exercised = Some("the client did not get its requests out".into());
+                break;
+            }
+            if conn.send_unit(u).await.is_err() {
+                not_exercised = Some(format!("could not send unit {j}"));
+                break;
+            }
+            sent += u.len();
+            if j + 1 == units.len() {
+                conn.finish_sending().await;
+            }
+            continue;
+        }
         if conn.send_unit(u).await.is_err() {
             not_exercised = Some(format!("could not send unit {j}"));
             break;
@@ -391,9 +437,10 @@ async fn run_close(case: &Value) -> Value {
     let plan = ClientPlan {
         n: outstanding,
         pipelined: true,
-        then_subsequent: true,
+        then_subsequent: point != "pending-close-session",
         wait_closed_before_rpcs: point == "after-hello-idle",
         op_timeout: Duration::from_secs(4),
+        close_session: point == "pending-close-session",
     };
     let cpu0 = proc_cpu_ticks();
     let t_start = Instant::now();
@@ -414,7 +461,8 @@ async fn run_close(case: &Value) -> Value {
         _ => {
             script_ok &= conn.send_unit(&hello).await.is_ok();
             // client hello, then the pipelined requests
-            script_ok &= conn.read_messages(&mut from_client, 1 + outstanding, Duration::from_secs(4)).await;
+            let expect_msgs = 1 + outstanding + usize::from(point == "pending-close-session");
+            script_ok &= conn.read_messages(&mut from_client, expect_msgs, Duration::from_secs(4)).await;
             match point.as_str() {
                 "inside-reply" => {
                     let r = reply_bytes(1, "tag-0", 64, false);
@@ -504,6 +552,7 @@ async fn run_close(case: &Value) -> Value {
         }
     }
     match &log.subsequent {
+        Some(Res::Ok(_)) if point == "pending-close-session" => symptoms.push("close-session-succeeded-although-the-peer-hung-up-without-answering".into()),
         Some(Res::Ok(_)) => symptoms.push("subsequent-op-succeeded-after-close".into()),
         Some(Res::Timeout | Res::SendTimeout) => symptoms.push("subsequent-op-hang".into()),
         _ => {}
@@ -731,7 +780,7 @@ pub fn run_c06(cfg: &Cfg) -> i32 {
     let mut id = 0u64;
     let mut push = |cases: &mut Vec<Value>, tr: Tr, n: usize, pads: Vec<usize>, cuts: Vec<usize>, pipelined: bool, lookalike: bool, class: &str| {
         id += 1;
-        cases.push(json!({"kind": "seg", "id": id, "tr": tr.name(), "n": n, "pads": pads, "cuts": cuts, "pipelined": pipelined, "lookalike": lookalike, "class": class}));
+        cases.push(json!({"kind": "seg", "id": id, "tr": tr.name(), "n": n, "pads": pads, "cuts": cuts, "pipelined": pipelined, "lookalike": lookalike, "class": class, "close_after": class.starts_with("peer-stops-sending")}));
     };
     let thorough = cfg.thorough();
     for &tr in &trs {
@@ -769,6 +818,14 @@ pub fn run_c06(cfg: &Cfg) -> i32 {
             // everything in one unit
             push(&mut cases, tr, k, pads.clone(), vec![], true, false, "multi-message-unit:everything-in-one-unit");
             let _ = len;
+        }
+        // (3b) the peer stops sending right after its last message (a server that answers
+        // <close-session> and hangs up, a CLI process that exits): what it sent before is delivered
+        for k in 1..=3usize {
+            let pads = vec![8; k];
+            let (_len, ends) = seg_stream_layout(k, &pads, 0, false);
+            push(&mut cases, tr, k, pads.clone(), vec![ends[0]], true, false, &format!("peer-stops-sending-after-last-message:{k}-replies-in-one-unit"));
+            push(&mut cases, tr, k, pads.clone(), ends.clone(), true, false, &format!("peer-stops-sending-after-last-message:{k}-replies-one-per-unit"));
         }
         // (4) 1-byte dribble of a short stream
         {
@@ -923,10 +980,12 @@ pub fn run_c07(cfg: &Cfg) -> i32 {
             Tr::Tls => vec!["clean", "abrupt", "fin-only"],
             _ => vec!["clean", "abrupt"],
         };
-        for point in ["before-hello", "inside-hello", "after-hello-idle", "inside-reply", "between-request-and-reply", "after-reply"] {
+        for point in ["before-hello", "inside-hello", "after-hello-idle", "inside-reply", "between-request-and-reply", "after-reply", "pending-close-session"] {
             for manner in &manners {
                 let outs: Vec<usize> = match point {
                     "before-hello" | "inside-hello" | "after-hello-idle" => vec![0],
+                    "pending-close-session" if thorough => vec![0, 1],
+                    "pending-close-session" => vec![0],
                     _ if thorough => vec![1, 3],
                     _ => vec![1],
                 };
@@ -1141,6 +1200,15 @@ pub fn gen_password(r: &mut Prng) -> String {
     while s.len() < 14 {
         s.push_str(*r.pick(PW_ATOMS));
         s.push_str(&format!("{}", r.below(1000)));
+    }
+    // what a secrets file, a here-document or `echo` without -n leave at the end (or a pasted
+    // value at the start)
+    match r.below(8) {
+        0 => s.push('\n'),
+        1 => s.push_str("\r\n"),
+        2 => s.insert(0, ' '),
+        3 => s.push_str("\n\n"),
+        _ => {}
     }
     s
 }
